@@ -162,7 +162,7 @@ var kindSpecs = map[string]*kindSpec{
 	}},
 	"klass": {Name: "klass", Natural: "FunctionProto", Class: "function", Build: func(w *mworld, p *om.Object) *om.Object {
 		o := fnObject(w, p, "o", 0, 2)
-		sm := om.NewObject("o.sm", nil)
+		sm := om.NewObject("?function", nil)
 		o.Put(om.StrKey("sm"), dataP(om.ObjV(sm), true, false, true))
 		return o
 	}},
@@ -204,8 +204,8 @@ var kindSpecs = map[string]*kindSpec{
 	}},
 	"math":   {Name: "math", Natural: "ObjectProto", Class: "templated", Adopt: true, Build: buildAdopted("math")},
 	"global": {Name: "global", Natural: "ObjectProto", Class: "global", Adopt: true, Build: buildAdopted("global")},
-	"u8":  {Name: "u8", Natural: "Uint8ArrayProto", Class: "typedarray", Build: func(w *mworld, p *om.Object) *om.Object { return om.NewTypedArray("o", p, om.ElemUint8, 2) }},
-	"u8e": {Name: "u8e", Natural: "Uint8ArrayProto", Class: "typedarray", Build: func(w *mworld, p *om.Object) *om.Object { return om.NewTypedArray("o", p, om.ElemUint8, 0) }},
+	"u8":     {Name: "u8", Natural: "Uint8ArrayProto", Class: "typedarray", Build: func(w *mworld, p *om.Object) *om.Object { return om.NewTypedArray("o", p, om.ElemUint8, 2) }},
+	"u8e":    {Name: "u8e", Natural: "Uint8ArrayProto", Class: "typedarray", Build: func(w *mworld, p *om.Object) *om.Object { return om.NewTypedArray("o", p, om.ElemUint8, 0) }},
 	"u8c": {Name: "u8c", Natural: "Uint8ClampedArrayProto", Class: "typedarray", Build: func(w *mworld, p *om.Object) *om.Object {
 		return om.NewTypedArray("o", p, om.ElemUint8Clamped, 2)
 	}},
